@@ -1103,8 +1103,9 @@ class SymMixin:
             ln = None
             return Sym(term, "bytes", raw_read=True, size=n, stream=s)
         if name == "write":
-            run.emit("write", s, a[0] if a else None, site)
-            return Sym(("write-result", s.uid, len(run.effects)), "int", lo=0)
+            res = ("write-result", s.uid, len(run.effects))
+            run.emit("write", s, a[0] if a else None, res, site)
+            return Sym(res, "int", lo=0)
         if name == "getvalue":
             run.emit("getvalue", s, site)
             contents = [e for e in run.effects if e[0] in ("write", "codec-w", "atom-w") and e[1] is s]
